@@ -41,9 +41,9 @@ CATALOGUE = [
     ("C02", "Select.fill adds w instead of weight", P + "select.py", "                self.cut.fill(datum, w)\n            # no possibility of exception from here on out (for rollback)\n            self.entries += weight",
      "                self.cut.fill(datum, w)\n            # no possibility of exception from here on out (for rollback)\n            self.entries += w", 2500),
     ("C02", "Deviate.fill uses delta*delta", P + "deviate.py", "self.varianceTimesEntries += weight * delta * (q - self.mean)", "self.varianceTimesEntries += weight * delta * delta", 1500),
-    ("C02", "Categorize.fill gates on weight >= 0", P + "categorize.py", "        if weight > 0.0:\n            q = self.quantity(datum)\n            if isinstance(q, (basestring, bool)):",
-     "        if weight >= 0.0:\n            q = self.quantity(datum)\n            if isinstance(q, (basestring, bool)):", 2500),
-    ("C02", "Minimize overwritten by NaN", P + "minmax.py", "            if math.isnan(self.min) or q < self.min:", "            if math.isnan(self.min) or math.isnan(q) or q < self.min:", 2500),
+    ("C02", "Categorize.fill gates on weight >= 0", P + "categorize.py", "        if weight > 0.0:\n            q = self.quantity(datum)\n            if isinstance(q, (basestring, bool, np.bool_)):",
+     "        if weight >= 0.0:\n            q = self.quantity(datum)\n            if isinstance(q, (basestring, bool, np.bool_)):", 2500),
+    ("C02", "Minimize overwritten by NaN", P + "minmax.py", "            replace = math.isnan(self.min) or q < self.min", "            replace = math.isnan(self.min) or math.isnan(q) or q < self.min", 2500),
     # ---- C03
     ("C03", "Bin._numpy overflow mask uses less_equal", P + "bin.py", "np.less(q, self.high, selection)", "np.less_equal(q, self.high, selection)", 2500),
     ("C03", "Sum._numpy adds the row count to entries", P + "sum.py", "self.entries += float(weights.sum())", "self.entries += float(len(weights))", 2500),
@@ -100,8 +100,7 @@ CATALOGUE = [
      "out.expr = types.FunctionType(marshal.loads(__code__), g, __name__, None, __closure__)", 1500),
     ("C11", "__getstate__ also drops entries of Count", "histogrammar/defs.py", "        for s in [\"fill\", \"plot\"]:", "        for s in [\"fill\", \"plot\", \"_checkedForCrossReferences\", \"nanflow\"]:", 1500),
     # ---- C12
-    ("C12", "Sum.fill counts before evaluating the quantity", P + "sum.py", "        if weight > 0.0:\n            q = self.quantity(datum)\n            if not isinstance(q, numbers.Real):\n                raise TypeError(f\"function return value ({q}) must be boolean or number\")\n\n            # no possibility of exception from here on out (for rollback)\n            self.entries += weight",
-     "        if weight > 0.0:\n            self.entries += weight\n            q = self.quantity(datum)\n            if not isinstance(q, numbers.Real):\n                raise TypeError(f\"function return value ({q}) must be boolean or number\")\n", 800),
+    ("C12", "Sum.fill counts before evaluating the quantity", P + "sum.py", "        if weight > 0.0:\n            q = self.quantity(datum)\n", "        if weight > 0.0:\n            self.entries += weight\n            q = self.quantity(datum)\n            self.entries -= weight\n", 800),
     ("C12", "Select.fill counts before cut.fill", P + "select.py", "            w *= weight\n\n            if w > 0.0:\n                self.cut.fill(datum, w)\n            # no possibility of exception from here on out (for rollback)\n            self.entries += weight",
      "            w *= weight\n            self.entries += weight\n            if w > 0.0:\n                self.cut.fill(datum, w)", 800),
     ("C12", "Categorize.fill inserts the bin first again", P + "categorize.py", "                sub = self.value.zero()\n                sub.fill(datum, weight)\n", "                sub = self.value.zero()\n                self.bins[q] = sub\n                sub.fill(datum, weight)\n", 800),
@@ -131,7 +130,7 @@ CATALOGUE = [
     # round 3: single-site versions of what the independent seeded changes of that round needed
     ("C09", "Stack.__eq__ compares thresholds with == (NaN thresholds of Stack.build)", "histogrammar/primitives/stack.py",
      "numeq(c1, c2) and v1 == v2", "c1 == c2 and v1 == v2", 4000),
-    ("C09", "numeq rounds 64-bit integers to doubles", "histogrammar/util.py", "    return x == y\n", "    return float(x) == float(y)\n", 8000),
+    ("C09", "numeq compares single-precision roundings", "histogrammar/util.py", "    return x == y\n", "    return np.float32(x) == np.float32(y)\n", 8000),
     ("C10", "SparselyBin.__add__ compares binWidth with numeq (tolerance knob)", "histogrammar/primitives/sparselybin.py",
      "            if self.binWidth != other.binWidth:", "            if not numeq(self.binWidth, other.binWidth):", 5000),
     ("C17", "named() renames a CachedFcn in place", "histogrammar/util.py", "    if isinstance(fcn, CachedFcn):\n        return CachedFcn(fcn.expr, name)",
